@@ -96,6 +96,19 @@ func genC09Directed(r *Rng, i int) *WCase {
 		}
 		return ops
 	}
+	if i%12 == 7 {
+		// one very large Write (>= 128 KiB) issued after a small one, against the same data in pieces
+		small := r.Pick([]int{1, 7, 300, 5000, 40000})
+		big := 131072 + r.Pick([]int{0, 0, 1, 5000}) - r.Intn(2)*r.Intn(2)
+		n := small + big
+		c.Datas = []DataSpec{{Gen: r.PickS([]string{"text", "uni3", "plant300", "rnd", "run"}), Seed: r.U64(), N: n}}
+		c.Ops = []Op{{K: "w", N: small}, {K: "w", N: big}, {K: "c"}}
+		c.Ops2 = []Op{{K: "w", N: small}, {K: "w", N: big / 2}, {K: "w", N: big - big/2}, {K: "c"}}
+		if r.Bool() {
+			c.Ops2 = []Op{{K: "w", N: n}, {K: "c"}}
+		}
+		return c
+	}
 	if s.Level == -2 {
 		first := 65536*(1+r.Intn(2)) + r.Range(-1, 1)
 		rest := r.Pick([]int{1, 2, 700, 66000})
